@@ -58,6 +58,16 @@ func init() {
 	_ = GenericRegister[schema.ResponseMeta]("_eino_response_meta")
 	_ = GenericRegister[schema.TokenUsage]("_eino_token_usage")
 	_ = GenericRegister[schema.LogProbs]("_eino_log_probs")
+	// the remaining types a schema.Message can hold: without them a message with multi-modal parts or log
+	// probabilities could not be written to a checkpoint ("unknown type")
+	_ = GenericRegister[schema.LogProb]("_eino_log_prob")
+	_ = GenericRegister[schema.TopLogProb]("_eino_top_log_prob")
+	_ = GenericRegister[schema.ChatMessagePartType]("_eino_chat_message_part_type")
+	_ = GenericRegister[schema.ImageURLDetail]("_eino_image_url_detail")
+	_ = GenericRegister[schema.ChatMessageImageURL]("_eino_chat_message_image_url")
+	_ = GenericRegister[schema.ChatMessageAudioURL]("_eino_chat_message_audio_url")
+	_ = GenericRegister[schema.ChatMessageVideoURL]("_eino_chat_message_video_url")
+	_ = GenericRegister[schema.ChatMessageFileURL]("_eino_chat_message_file_url")
 }
 
 func GenericRegister[T any](key string) error {
